@@ -37,6 +37,7 @@ type c18Case struct {
 	Skip        int    `json:"skip"`                  // seekable: permille of the text already consumed by the caller before parsing
 	EOFWithData bool   `json:"eofwithdata,omitempty"` // the reader reports io.EOF together with its last bytes
 	Transient   bool   `json:"transient,omitempty"`   // failing-reader: one read fails, the following reads succeed
+	FifoPauseMS int    `json:"fifopausems,omitempty"` // fifo input: the writer pauses this long after half of the text
 	SameStat    bool   `json:"samestat,omitempty"`    // file input: the path held other text of the same length and the same times when it was parsed just before
 	NameForm    int    `json:"nameform,omitempty"`    // odd-name: which spelling of the file name is handed to the parsers
 	BOM         bool   `json:"bom"`                   // the text starts with a UTF-8 byte order mark (both parsers must treat it alike)
@@ -380,7 +381,15 @@ func checkC18(c c18Case, ctx *vCtx) *vFailure {
 			if err != nil {
 				return
 			}
-			_, _ = f.WriteString(text)
+			if c.FifoPauseMS > 0 {
+				// a writer that pauses in the middle (the pipe stays open): the parser has to wait, however long it takes
+				half := len(text) / 2
+				_, _ = f.WriteString(text[:half])
+				time.Sleep(time.Duration(c.FifoPauseMS) * time.Millisecond)
+				_, _ = f.WriteString(text[half:])
+			} else {
+				_, _ = f.WriteString(text)
+			}
 			f.Close()
 		}()
 		defer func() { // unblock the writer if the parser never opened the pipe
@@ -603,7 +612,28 @@ func genC18(t *rapid.T) c18Case {
 	return c
 }
 
-func init() { vRegister("C18", "c18.schedules", checkC18) }
+func init() {
+	vRegister("C18", "c18.schedules", checkC18)
+	vRegister("C18", "c18.slowfifo", checkC18)
+}
+
+func TestVerifC18SlowFifo(t *testing.T) {
+	plain := vLayout{Indent: "  ", Sep: ": ", EOL: "\n"}
+	var d vDoc
+	for i := 0; i < 6; i++ {
+		d.Recs = append(d.Recs, vRec{Head: fmt.Sprintf("rec %d", i), HL: vLayout{EOL: "\n"}, Lines: []vLine{{Kind: vkEntry, Name: "x", Num: fmt.Sprint(i), L: plain}, {Kind: vkEntry, Name: "y", Num: "2", L: plain}}})
+	}
+	space := []c18Case{
+		{Doc: d, Input: "fifo", Policy: "documented", Procs: 2, FifoPauseMS: 5600},
+		{Doc: d, Input: "fifo", Policy: "drain", Procs: 2, FifoPauseMS: 5600},
+	}
+	if vThorough() {
+		space = append(space, c18Case{Doc: d, Input: "fifo", Policy: "drain", Procs: 1, FifoPauseMS: 11000})
+	}
+	vEnum(t, "C18", "c18.slowfifo",
+		"a named pipe whose writer pauses 5.6 s (thorough: also 11 s) after half of the text and then goes on: both consumer policies must receive every record and Done, as the callback parser does on the same text",
+		fmt.Sprintf("%d cases", len(space)), len(space), func(i int) c18Case { return space[i] }, checkC18)
+}
 
 func TestVerifC18Schedules(t *testing.T) {
 	vRapid(t, "C18", "c18.schedules",
